@@ -254,6 +254,68 @@ Section Builtin.
         * cbn in E1. rewrite E1. exists sf. eexists. split; [reflexivity|]. split; auto.
   Qed.
 
+  Lemma builtin_readback_run_enc enc (c : cid cstate) ks : c_checks c = map check_of ks -> forall rows w wf es,
+    write_all_enc enc c w rows = (wf, es) ->
+    forall s, loc_inv s -> rs_count s = S (l_line (w_loc w)) -> sim ks (w_sts w) (rs_sts s) ->
+    exists sf evs,
+      run_rows c MYield None s (accepted_of rows es)
+      = (sf, map ORow (skipn (c_header c - l_line (w_loc w)) (accepted_of rows es)), None, evs)
+      /\ sim ks (w_sts wf) (rs_sts sf) /\ rs_rej sf = rs_rej s.
+  Proof.
+    intros Hc. induction rows as [|row rest IH]; intros w wf es H s Inv Hk Hs.
+    - cbn in H. injection H as <- <-. cbn [accepted_of]. rewrite skipn_nil. cbn. eauto 10.
+    - cbn [write_all_enc] in H. destruct (write_row_enc enc c w row) as [[w' oe] evs0] eqn:W.
+      destruct (write_all_enc enc c w' rest) as [wf' es'] eqn:R. injection H as <- <-.
+      unfold write_row_enc, write_row in W. destruct (Nat.leb (c_header c) (l_line (w_loc w))) eqn:Hh.
+      + apply Nat.leb_le in Hh.
+        assert (l_line (w_loc w) = l_line (rs_loc s)) as HL2 by (destruct Inv as [-> _]; cbn; lia).
+        destruct (validate_row c (w_sts w) (w_loc w) row) as [[[sts' oe'] l'] evs1] eqn:V.
+        pose proof (validate_row_loc _ _ _ _ _ _ _ _ V) as HL.
+        unfold validate_row in V.
+        destruct (negb (Nat.eqb (length row) (length (c_fields c)))) eqn:Hn.
+        { injection V as <- <- <- <-. injection W as <- <- <-. cbn [accepted_of].
+          destruct (IH _ _ _ R s Inv) as [sf [evs [E1 E2]]]; cbn; auto. cbn in E1. eauto. }
+        destruct (validate_fields (c_fmt c) (c_fields c) 0 row) as [[i|] evsf] eqn:VF.
+        { injection V as <- <- <- <-. injection W as <- <- <-. cbn [accepted_of].
+          destruct (IH _ _ _ R s Inv) as [sf [evs [E1 E2]]]; cbn; auto. cbn in E1. eauto. }
+        rewrite Hc in V.
+        destruct (run_checks (map check_of ks) 0 (w_sts w) row (set_cell (w_loc w) 0)) as [[a' [see|]] evsc] eqn:RC.
+        * (* vetoed by a check: the writer's states may have grown, the reader does not see the row *)
+          injection V as <- <- <- <-. injection W as <- <- <-. cbn [accepted_of].
+          pose proof (run_checks_grow _ _ _ _ _ _ _ _ _ Hs RC) as S'.
+          destruct (IH _ _ _ R s Inv) as [sf [evs [E1 E2]]]; cbn; auto. cbn in E1. eauto.
+        * injection V as <- <- <- <-. cbv beta iota zeta in W.
+          destruct (forallb (forallb enc) row) eqn:Enc; injection W as <- <- <-; cbn [accepted_of].
+          2:{ (* the encoding refuses the row: the writer's checks have seen it, the reader never does *)
+              pose proof (run_checks_grow _ _ _ _ _ _ _ _ _ Hs RC) as S'.
+              destruct (IH _ _ _ R s Inv) as [sf [evs [E1 E2]]]; cbn; auto. cbn in E1. eauto. }
+          destruct (run_checks_pass _ _ _ _ _ _ _ _ Hs RC) as [b' [RB SB]].
+          replace (c_header c - l_line (w_loc w)) with 0 by lia. cbn [skipn map].
+          cbn [run_rows]. unfold step.
+          assert (Nat.ltb (c_header c) (rs_count s) = true) as -> by (apply Nat.ltb_lt; lia).
+          cbn [before_limit]. unfold validate_row. rewrite Hn, VF, Hc.
+          pose proof (set_cell_line (rs_loc s) (w_loc w) 0 (eq_sym HL2)) as QQ. rewrite QQ. rewrite RB. cbv beta iota zeta.
+          match goal with |- context [run_rows c MYield None ?x _] => set (s1 := x) end.
+          destruct (IH _ _ _ R s1) as [sf [evs [E1 [E2 E3]]]].
+          -- split; subst s1; cbn; [|lia]. unfold advance_line, set_cell. cbn. f_equal. lia.
+          -- subst s1. cbn. lia.
+          -- subst s1. cbn. exact SB.
+          -- cbn in E1. replace (c_header c - S (l_line (w_loc w))) with 0 in E1 by lia.
+             cbn [skipn] in E1. rewrite E1. exists sf. eexists. split; [reflexivity|]. split; auto.
+      + apply Nat.leb_gt in Hh. cbv beta iota zeta in W.
+        destruct (forallb (forallb enc) row) eqn:Enc; injection W as <- <- <-; cbn [accepted_of].
+        2:{ destruct (IH _ _ _ R s Inv) as [sf [evs [E1 E2]]]; cbn; auto. cbn in E1. eauto. }
+        replace (c_header c - l_line (w_loc w)) with (S (c_header c - S (l_line (w_loc w)))) by lia.
+        rewrite skipn_S_cons. cbn [run_rows]. unfold step.
+        assert (Nat.ltb (c_header c) (rs_count s) = false) as -> by (apply Nat.ltb_ge; lia). cbv beta iota zeta.
+        match goal with |- context [run_rows c MYield None ?x _] => set (s1 := x) end.
+        destruct (IH _ _ _ R s1) as [sf [evs [E1 [E2 E3]]]].
+        * split; subst s1; cbn; [|lia]. destruct Inv as [-> _]. unfold advance_line. cbn. f_equal. lia.
+        * subst s1. cbn. lia.
+        * subst s1. cbn. exact Hs.
+        * cbn in E1. rewrite E1. exists sf. eexists. split; [reflexivity|]. split; auto.
+  Qed.
+
   (* with IsUnique / DistinctCount checks, whatever mixture of accepted and rejected rows was written: reading the
      output back accepts every row *)
   Theorem builtin_writer_readback_lemma (c : cid cstate) ks rows sts_w sts_r wf es :
@@ -266,6 +328,22 @@ Section Builtin.
     intros Hc H. destruct (write_all_emits c _ _ _ _ H) as [_ [E _]]. cbn in E.
     rewrite E. unfold reader_rows. fold (s0 c).
     destruct (builtin_readback_run c ks Hc rows _ _ _ H (s0 c) (s0_inv c) eq_refl) as [sf [evs [R [_ B]]]].
+    - cbn. rewrite Hc. apply sim_refl_resets.
+    - cbn in R. rewrite Nat.sub_0_r in R. rewrite R. eauto.
+  Qed.
+
+  (* the same for a target whose encoding cannot represent every character: rows it refuses have been seen by the
+     writer's checks but are not in the output; the output still reads back without a rejection *)
+  Theorem builtin_writer_readback_enc_lemma enc (c : cid cstate) ks rows sts_w sts_r wf es :
+    c_checks c = map check_of ks ->
+    write_all_enc enc c (writer_init c sts_w) rows = (wf, es) ->
+    exists sf evs,
+      reader_rows c MYield None sts_r (w_rows wf) false = (sf, map ORow (skipn (c_header c) (w_rows wf)), None, evs)
+      /\ rs_rej sf = 0.
+  Proof.
+    intros Hc H. destruct (write_all_enc_emits enc c _ _ _ _ H) as [_ [E _]]. cbn in E.
+    rewrite E. unfold reader_rows. fold (s0 c).
+    destruct (builtin_readback_run_enc enc c ks Hc rows _ _ _ H (s0 c) (s0_inv c) eq_refl) as [sf [evs [R [_ B]]]].
     - cbn. rewrite Hc. apply sim_refl_resets.
     - cbn in R. rewrite Nat.sub_0_r in R. rewrite R. eauto.
   Qed.
